@@ -11,4 +11,15 @@ G211  == <<2, 1, 1>>
 G1111 == <<1, 1, 1, 1>>
 G11111 == <<1, 1, 1, 1, 1>>
 G2101 == <<2, 1, 0, 1>>
+
+(* Which records have a large text line. *)
+Small2 == <<FALSE, FALSE>>
+Small3 == <<FALSE, FALSE, FALSE>>
+Small4 == <<FALSE, FALSE, FALSE, FALSE>>
+Small5 == <<FALSE, FALSE, FALSE, FALSE, FALSE>>
+Big10  == <<TRUE, FALSE>>
+Big100 == <<TRUE, FALSE, FALSE>>
+Big010 == <<FALSE, TRUE, FALSE>>
+Big110 == <<TRUE, TRUE, FALSE>>
+Big0101 == <<FALSE, TRUE, FALSE, TRUE>>
 =============================================================================
